@@ -474,7 +474,15 @@ Lemma call_helper_S (f : nat) (hid : helper_id) (h : helper_v) (s : rstate) :
           | HBlockHelperMissing =>
               rbind (log_write (`"bhm(" ++ hv_name h ++ `")") s) (fun _ s1 => opt_render reg data ft f (hv_tpl h) s1)
           | HLocal n =>
-              log_write (`"local(" ++ n ++ `":" ++ params_text (hv_params h) ++ `")") s
+              let txt := `"local(" ++ n ++ `":" ++ params_text (hv_params h) ++ `")" in
+              if starts_with (`"w:") n
+              then (* logs the usual line, writes the rendered text of its first parameter (nothing if
+                      there is none), unescaped *)
+                   out_write (match hv_params h with p :: _ => render_json ft (pj_value p) | [] => [] end)
+                             (log_entry s txt)
+              else if starts_with (`"e:") n
+              then let '(output, s1) := do_escape reg txt (log_entry s txt) in out_write output s1
+              else log_write txt s
           | _ => ROk tt s
           end.
 Proof. reflexivity. Qed.
